@@ -40,6 +40,34 @@ func Text(toks []string) string {
 	return sb.String()
 }
 
+// Compact is Text with every blank left out that the lexical rules do not need (Grammar.tla, "Spacing"): a blank stays
+// between two tokens when the first ends and the second begins with a word character (letter, digit, _, ., quote), when
+// a word is followed by ( or [ (a call or subscript would arise), when both are made of operator characters (they could
+// fuse into another operator), and around regex literals (/ is also division).  The tree must not depend on spacing.
+func Compact(toks []string) string {
+	word := func(ch byte) bool {
+		return ch == '_' || ch == '.' || ch == '"' || ch >= '0' && ch <= '9' || ch >= 'a' && ch <= 'z' || ch >= 'A' && ch <= 'Z'
+	}
+	opch := func(ch byte) bool { return strings.IndexByte("+-*/%^=<>!&|~?:,$", ch) >= 0 }
+	var sb strings.Builder
+	for i, t := range toks {
+		if i > 0 {
+			prev := toks[i-1]
+			glue := (t == "[" && (prev == "A" || prev == "B")) || (t == "(" && (prev == "length" || prev == "fg"))
+			if !glue {
+				a, b := prev[len(prev)-1], t[0]
+				need := isRegexTok(prev) || isRegexTok(t) || prev == "/" || t == "/" ||
+					(word(a) && (word(b) || b == '(' || b == '[')) || (opch(a) && opch(b))
+				if need {
+					sb.WriteByte(' ')
+				}
+			}
+		}
+		sb.WriteString(t)
+	}
+	return sb.String()
+}
+
 // Program wraps the expression text in the minimal program of the context.
 func Program(ctx, expr string) string {
 	switch ctx {
@@ -199,8 +227,14 @@ func Replay(raw json.RawMessage) hx.Outcome {
 	for _, v := range []struct {
 		which string
 		toks  []string
-	}{{"min", c.Min}, {"full", c.Full}} {
-		src := Program(c.Ctx, Text(v.toks))
+	}{{"min", c.Min}, {"full", c.Full}, {"min-compact", c.Min}} {
+		txt := Text(v.toks)
+		if v.which == "min-compact" {
+			if txt = Compact(v.toks); txt == Text(v.toks) {
+				continue
+			}
+		}
+		src := Program(c.Ctx, txt)
 		got, err, pan := ParseSexpr(src, Mode{})
 		if pan != nil {
 			return hx.Fail(classify(&c, v.which, "panic", v.toks, ""), fmt.Sprintf("the parser panicked on %q: %v", src, pan), want, fmt.Sprint(pan), src)
